@@ -37,17 +37,19 @@ def generate(rng, tier):
             xs.sort()
         else:
             rng.shuffle(xs)
-        yk = rng.choice(["random", "const", "linear", "wide"])
+        yk = rng.choice(["random", "const", "linear", "wide", "ints", "ints"])
         if yk == "random":
             ys = [rng.uniform(-3, 3) for _ in xs]
         elif yk == "const":
             ys = [2.5 for _ in xs]
+        elif yk == "ints":
+            ys = [float(rng.randint(-5, 9)) for _ in xs]
         elif yk == "linear":
             ys = [0.7 * v - 1.1 for v in xs]
         else:
             ys = [rng.sgn() * rng.logu(1e-6, 1e6) for _ in xs]
-        cases.append({"x": xs, "y": ys, "xmin": xmin, "xdiv": xdiv, "xmax": xmax,
-                      "desc": {"kind": kind, "order": order, "y": yk, "bins": nb, "integer_span": bool(i % 2)}})
+        cases.append({"x": xs, "y": ys, "xmin": xmin, "xdiv": xdiv, "xmax": xmax, "int_y": yk == "ints" and rng.choice(["list", "array", "no"]),
+                      "desc": {"kind": kind, "int_y": yk == "ints", "order": order, "y": yk, "bins": nb, "integer_span": bool(i % 2)}})
     return cases
 
 
@@ -57,7 +59,13 @@ def call(pystog, x, y, xmin, xdiv, xmax):
 
 
 def run_impl(pystog, case):
-    xo, yo = call(pystog, case["x"], case["y"], case["xmin"], case["xdiv"], case["xmax"])
+    y = case["y"]
+    if case.get("int_y") == "list":
+        y = [int(v) for v in y]
+    elif case.get("int_y") == "array":
+        y = np.array([int(v) for v in y], dtype=np.int64)
+    xo, yo = pystog.Pre_Proc.rebin(list(case["x"]), y, case["xmin"], case["xdiv"], case["xmax"])
+    xo, yo = np.asarray(xo, float), np.asarray(yo, float)
     return {"xout": xo.tolist(), "yout": yo.tolist()}
 
 
